@@ -16,6 +16,14 @@ pub enum Api {
     StepRow,
     /// as crates/examples/src/bin/convert.rs: `read_sequence`, per-unit `ConvertUnit::write`
     StepSeq,
+    /// like StepRow, but the k-th call on the ConvertLineProgram is `read_sequence` when bit k of
+    /// the schedule is set and `read_row` otherwise (calls beyond bit 63: `read_row`)
+    Sched(u64),
+}
+
+thread_local! {
+    /// number of read_row/read_sequence calls made by the last `Api::Sched` conversion on this thread
+    pub static SCHED_CALLS: std::cell::Cell<u32> = const { std::cell::Cell::new(0) };
 }
 impl Api {
     pub fn name(self) -> &'static str {
@@ -23,6 +31,7 @@ impl Api {
             Api::From => "Dwarf::from",
             Api::StepRow => "stepwise(read_row)",
             Api::StepSeq => "stepwise(read_sequence)",
+            Api::Sched(_) => "stepwise(read_row/read_sequence schedule)",
         }
     }
 }
@@ -71,6 +80,37 @@ fn step_unit<'u, 'a>(unit: &mut write::ConvertUnit<'u, RD<'a>>, root_entry: writ
                     if let write::ConvertLineSequenceEnd::Length(length) = sequence.end {
                         cp.end_sequence(length);
                     }
+                }
+            }
+            Api::Sched(bits) => {
+                let mut k = 0u32;
+                SCHED_CALLS.with(|c| c.set(0));
+                loop {
+                    let use_seq = k < 64 && (bits >> k) & 1 == 1;
+                    k += 1;
+                    SCHED_CALLS.with(|c| c.set(k));
+                    if use_seq {
+                        let Some(sequence) = cp.read_sequence()? else { break };
+                        if let Some(start) = sequence.start {
+                            cp.set_address(Address::Constant(start));
+                        }
+                        for row in sequence.rows {
+                            cp.generate_row(row);
+                        }
+                        if let write::ConvertLineSequenceEnd::Length(length) = sequence.end {
+                            cp.end_sequence(length);
+                        }
+                    } else {
+                        let Some(row) = cp.read_row()? else { break };
+                        match row {
+                            write::ConvertLineRow::SetAddress(a) => cp.set_address(Address::Constant(a)),
+                            write::ConvertLineRow::Row(row) => cp.generate_row(row),
+                            write::ConvertLineRow::EndSequence(l) => cp.end_sequence(l),
+                        }
+                    }
+                }
+                if cp.in_sequence() {
+                    return Err(ConvertError::MissingLineEndSequence);
                 }
             }
             _ => {
